@@ -86,6 +86,19 @@ def gen_shaped(rng):
     return items
 
 
+def gen_rematch(rng):
+    """a scope that is repeated and whose body changes, without changing the length of the text, which lines its pattern
+    selects: every pass has to look at the text as it then is"""
+    pat = rng.choice(["foo", "^f", "o", "a", "b.r", "^[a-z]"])
+    body = [("move", False, rng.choice(["~", "rZ", "gUiw", "guw", "g~iw", "0~", "0rQ", "gUU", "g~~"]))]
+    if rng.random() < 0.4:
+        body.append(("cut", False, rng.choice(["e", "iw", "$"])))
+    items = [("glob", rng.random() < 0.3, rng.choice(["g", "g", "v"]), pat, body, None), ("rep", rng.random() < 0.3, "1", str(rng.randint(1, 3)))]
+    if rng.random() < 0.3:
+        items.append(("cut", False, "$"))
+    return items
+
+
 def run(chk, binary):
     rng = chk.rng
     thorough = chk.tier == "thorough"
@@ -96,7 +109,7 @@ def run(chk, binary):
 
     # ---- correspondence: Opts::parse vs model on the Cmd tree ----
     # main() treats a single argument as a vic script: keep to >= 2 arguments (Opts::parse front end)
-    items_list = [it for it in ((gen_shaped(rng) if k % 7 == 3 else L.gen_items(rng)) for k in range(n_struct)) if len(L.render(it)) >= 2]
+    items_list = [it for it in ((gen_shaped(rng) if k % 7 == 3 else gen_rematch(rng) if k % 7 == 5 else L.gen_items(rng)) for k in range(n_struct)) if len(L.render(it)) >= 2]
     argvs = [L.render(it) for it in items_list]
     mal = [m for m in (malform(rng, rng.choice(argvs)) for _ in range(n_mal)) if len(m) >= 2]
     all_argv = argvs + mal
